@@ -6,6 +6,7 @@
 import MRB.Seq.Life
 import MRB.Seq.Run
 import MRB.Conc.Drop
+import MRB.Conc.Replay
 
 namespace MRB.Props.C07
 open MRB MRB.Conc
@@ -98,6 +99,24 @@ theorem C07_free_happens_after_all_drops {hasW : Bool} {s : DropSt} (r : DropRea
     (u : Role) (hu : decremented (s.ph u) = true) : s.stamp u ≤ (s.vc t).get u := by
   have h := drop_reach_inv r
   exact Nat.le_trans (h.cover u hu) (h.ctrLe t (by rw [ht]; rfl) u)
+
+/-- **Recorded drops of the real crate are runs of this protocol.** The scheduler harness records every store of `false` into
+a liveness flag, every read-modify-write on the counter of live iterators (with the value it returned) and every release of the
+storage; the replay accepts a record only if it is an enabled step of the protocol (flag cleared by a live iterator, decrement after
+the flag was cleared and returning exactly the machine's counter, release by the thread whose decrement was the last). Whatever it
+accepts ends in a reachable state of the protocol, so the invariant — freed at most once, by the last one, after everybody's
+decrement, nobody touching the buffer afterwards — holds of it. -/
+theorem C07_replayed_drops_satisfy_the_invariant (hasW : Bool) (trace : List (List String)) :
+    let s := trace.foldl (fun s l => (dropReplayLine s l).1) (dinit hasW)
+    s.freed ≤ 1 ∧ s.uaf = false := by
+  have key : ∀ (tr : List (List String)) (s0 : DropSt), DropReach hasW s0 → DropReach hasW (tr.foldl (fun s l => (dropReplayLine s l).1) s0) := by
+    intro tr
+    induction tr with
+    | nil => intro s0 r; exact r
+    | cons l ls ih => intro s0 r; exact ih _ (dropReplayLine_reach r l)
+  have r := key trace (dinit hasW) DropReach.init
+  have h := drop_reach_inv r
+  exact ⟨by have := h.last; omega, h.noUaf⟩
 
 /-- Tie to the source for the concurrent part: the decrement is a single AcqRel read-modify-write whose *old* value decides. -/
 theorem C07_source_single_rmw : rmwAcq = true ∧ rmwRel = true ∧ rmwSingle = true := rmw_is_acqrel
